@@ -589,12 +589,12 @@ fn gen_pick(rng: &mut Rng, ex: &Ex, sink: &mut Sink) -> Op {
         5..=7 => rng.range(4, 12),
         _ => rng.range(1, 30),
     };
-    let cut = match rng.below(10) {
-        0..=6 => {
+    let cut = match rng.below(20) {
+        0..=14 => {
             sink.branch("pick:cut=huge");
             HUGE
         }
-        7 => {
+        15 => {
             sink.branch("pick:cut=0");
             0
         }
@@ -721,6 +721,10 @@ fn gen_ood(rng: &mut Rng, ex: &Ex) -> Option<Op> {
 fn gen_op(rng: &mut Rng, ex: &Ex, forget_anywhere: bool, sink: &mut Sink) -> Op {
     if ex.written == 0 && rng.chance(3, 4) {
         return gen_write(rng);
+    }
+    // a closed window (initial capacity 0, or after a forget) makes everything else a no-op: reopen it soon
+    if ex.max == 0 && ex.written > 0 && rng.chance(1, 2) {
+        return Op::Extend(rng.range(1, 40));
     }
     loop {
         match rng.below(100) {
@@ -922,4 +926,382 @@ pub fn run_exhaustive(o: &Opts) {
     sink.finish(&o.stats, &format!("small-scope enumeration on a real SendBuf (<= 8 bytes): every enabled operation from every distinct state, level by level; {}", RULE));
 }
 
-pub const RUNS: &[(&str, fn(&Opts))] = &[("C09", run), ("C09x", run_exhaustive)];
+// ------------------------------------------------------------------------------------------------
+// C09s: the same buffer behind the real crypto stream sender
+// ------------------------------------------------------------------------------------------------
+
+const VARINT_MAX: u64 = (1 << 62) - 1;
+
+/// Packet target with a hard capacity (`BufMut + RecordFrame`, like the connection's packet writer).
+struct Pkt {
+    buf: BytesMut,
+    room: usize,
+    recorded: usize,
+}
+
+impl Pkt {
+    fn new(cap: usize) -> Self {
+        Pkt { buf: BytesMut::with_capacity(cap + 64), room: cap, recorded: 0 }
+    }
+}
+
+unsafe impl BufMut for Pkt {
+    fn remaining_mut(&self) -> usize {
+        self.room
+    }
+    unsafe fn advance_mut(&mut self, cnt: usize) {
+        unsafe { self.buf.advance_mut(cnt) };
+        self.room -= cnt;
+    }
+    fn chunk_mut(&mut self) -> &mut bytes::buf::UninitSlice {
+        if self.buf.capacity() == self.buf.len() {
+            self.buf.reserve(64);
+        }
+        let n = self.room;
+        let c = self.buf.chunk_mut();
+        let l = c.len().min(n);
+        &mut c[..l]
+    }
+}
+
+impl<D: ContinuousData> RecordFrame<Frame<D>, D> for Pkt {
+    fn record_frame(&mut self, _frame: &Frame<D>) {
+        self.recorded += 1;
+    }
+}
+
+fn varint_size(x: u64) -> usize {
+    if x < 1 << 6 {
+        1
+    } else if x < 1 << 14 {
+        2
+    } else if x < 1 << 30 {
+        4
+    } else {
+        8
+    }
+}
+
+fn read_varint(b: &[u8]) -> Option<(u64, usize)> {
+    let first = *b.first()?;
+    let n = 1usize << (first >> 6);
+    if b.len() < n {
+        return None;
+    }
+    let mut v = (first & 0x3f) as u64;
+    for x in &b[1..n] {
+        v = (v << 8) | *x as u64;
+    }
+    Some((v, n))
+}
+
+/// The CRYPTO frames (type 0x06, varint offset, varint length, data) of a packet payload, in order:
+/// (offset, payload, encoded size).
+fn parse_crypto(mut b: &[u8]) -> Result<Vec<(u64, Vec<u8>, usize)>, String> {
+    let mut out = vec![];
+    while !b.is_empty() {
+        if b[0] != 0x06 {
+            return Err(format!("frame type {:#x} is not CRYPTO", b[0]));
+        }
+        let (off, n1) = read_varint(&b[1..]).ok_or("truncated offset")?;
+        let (len, n2) = read_varint(&b[1 + n1..]).ok_or("truncated length")?;
+        let h = 1 + n1 + n2;
+        if b.len() < h + len as usize {
+            return Err(format!("frame at offset {} announces {} bytes, {} present", off, len, b.len() - h));
+        }
+        out.push((off, b[h..h + len as usize].to_vec(), h + len as usize));
+        b = &b[h + len as usize..];
+    }
+    Ok(out)
+}
+
+#[derive(Clone, Copy, Debug)]
+enum SOp {
+    Write(u64),
+    Load(u64, bool),
+    Ack(u64, u64),
+    Lose(u64, u64),
+}
+
+struct SEx {
+    out: qrecovery::crypto::CryptoStreamOutgoing,
+    w: qrecovery::crypto::CryptoStreamWriter,
+    written: u64,
+    col: Vec<u8>,
+    frames: Vec<(u64, u64)>,
+    retx_frames: u64,
+    multi_load: bool,
+    dead: bool,
+}
+
+impl SEx {
+    fn new(sink: &mut Sink) -> SEx {
+        let cs = CryptoStream::new(ArcSendWakers::default());
+        let mut ex = SEx { out: cs.outgoing(), w: cs.writer(), written: 0, col: vec![], frames: vec![], retx_frames: 0, multi_load: false, dead: false };
+        ex.finish(sink, &format!("init {}", VARINT_MAX), "", vec![]);
+        ex
+    }
+
+    fn panic_line(&mut self, sink: &mut Sink, op: &str, name: &str, msg: &str) -> bool {
+        sink.line(op, "PANIC");
+        sink.monitor_fail(&format!("panic:{}", name), &format!("`{}` panicked: {}", op, msg));
+        self.dead = true;
+        false
+    }
+
+    /// State monitors: state_vs_oracle:* (max_data, size, run list), complete_iff_all_acked
+    /// (the data queue is empty iff every written byte is acknowledged), offset_le_unacked.
+    fn finish(&mut self, sink: &mut Sink, op: &str, prefix: &str, fails: Vec<(String, String)>) -> bool {
+        let d = format!("{:?}", self.out);
+        let Some(dump) = parse_dump(&d) else {
+            sink.line(op, &format!("{}UNPARSED", prefix));
+            sink.monitor_fail("dump_parse", &format!("cannot parse the Debug output: {}", d));
+            self.dead = true;
+            return false;
+        };
+        let sent = dump.runs.iter().find(|r| r.1 == P).map(|r| r.0).unwrap_or(dump.size);
+        sink.line(op, &format!("{}{}", prefix, state_str(self.written, sent, dump.data_empty, dump.max, &dump)));
+        for (k, w) in fails {
+            sink.monitor_fail(&k, &w);
+        }
+        let want = self.col.iter().all(|c| *c == R);
+        if dump.data_empty != want {
+            sink.monitor_fail("complete_iff_all_acked", &format!("data queue empty = {} but all-acked = {} (oracle {})", dump.data_empty, want, cols_str(&self.col)));
+        }
+        let first_nr = self.col.iter().position(|c| *c != R).unwrap_or(self.col.len()) as u64;
+        if dump.off != first_nr {
+            let key = if dump.off > first_nr { "offset_le_unacked:beyond" } else { "offset_le_unacked:behind" };
+            sink.monitor_fail(key, &format!("offset = {} but the least unacknowledged offset is {} (oracle {})", dump.off, first_nr, cols_str(&self.col)));
+        }
+        if dump.max != VARINT_MAX {
+            sink.monitor_fail("state_vs_oracle:max", &format!("max_data {} of the crypto stream is not 2^62-1", dump.max));
+        }
+        if dump.size != self.written {
+            sink.monitor_fail("state_vs_oracle:size", &format!("BufMap size {} != written {}", dump.size, self.written));
+        } else {
+            match expand(&dump) {
+                Err(e) => sink.monitor_fail("state_vs_oracle:malformed", &e),
+                Ok(v) => {
+                    if v != self.col {
+                        sink.monitor_fail("state_vs_oracle:runs", &format!("run list expands to {} but the oracle is {}", cols_str(&v), cols_str(&self.col)));
+                    }
+                }
+            }
+        }
+        !self.dead
+    }
+
+    /// load monitors: load_parse, pick_nonempty, pick_in_window, pick_colour, pick_lost_first, pick_data,
+    /// load_fits, load_stop_justified, load_ok_iff_frames, load_recorded.
+    fn step(&mut self, op: SOp, sink: &mut Sink) -> bool {
+        if self.dead {
+            return false;
+        }
+        let mut fails: Vec<(String, String)> = vec![];
+        match op {
+            SOp::Write(n) => {
+                let ops = format!("write {}", n);
+                let data = bytes_of(self.written, self.written + n);
+                sink.pending(&ops);
+                let mut cx = Context::from_waker(Waker::noop());
+                let r = catch(|| Pin::new(&mut self.w).poll_write(&mut cx, &data));
+                match r {
+                    Err(msg) => return self.panic_line(sink, &ops, "write", &msg),
+                    Ok(Poll::Ready(Ok(k))) if k as u64 == n => {}
+                    Ok(other) => fails.push(("write_accepts_all".into(), format!("poll_write of {} bytes returned {:?}", n, other))),
+                }
+                self.written += n;
+                self.col.resize(self.written as usize, P);
+                self.finish(sink, &ops, "", fails)
+            }
+            SOp::Load(max_size, force) => {
+                let ops = format!("load {} {}", max_size, force as u8);
+                sink.pending(&ops);
+                let mut pkt = Pkt::new(max_size as usize);
+                let r = catch(|| self.out.try_load_data_into(&mut pkt, force).map_err(|s| s.bits()));
+                let r = match r {
+                    Ok(r) => r,
+                    Err(msg) => return self.panic_line(sink, &ops, "load", &msg),
+                };
+                if force {
+                    for c in self.col.iter_mut() {
+                        if *c == F {
+                            *c = L;
+                        }
+                    }
+                }
+                let frames = match parse_crypto(&pkt.buf) {
+                    Ok(f) => f,
+                    Err(e) => {
+                        fails.push(("load_parse".into(), e));
+                        vec![]
+                    }
+                };
+                let size = self.col.len() as u64;
+                let cand_of = |col: &[u8]| col.iter().position(|c| *c == L || *c == P).map(|x| x as u64);
+                let mut room = max_size as usize;
+                let mut dataok = true;
+                let mut list = vec![];
+                for (a, payload, enc) in frames.iter() {
+                    let (a, b) = (*a, *a + payload.len() as u64);
+                    list.push(format!("{}..{}", a, b));
+                    if *payload != bytes_of(a, b) {
+                        dataok = false;
+                        fails.push(("pick_data".into(), format!("CRYPTO frame {}..{} does not carry the written bytes of the range", a, b)));
+                    }
+                    if a >= b {
+                        fails.push(("pick_nonempty".into(), format!("empty CRYPTO frame at {}", a)));
+                    }
+                    if b > size {
+                        fails.push(("pick_in_window".into(), format!("frame {}..{} ends beyond written {}", a, b, size)));
+                    }
+                    let cand = cand_of(&self.col);
+                    if cand != Some(a) {
+                        fails.push(("pick_lost_first".into(), format!("frame {}..{} but the least sendable offset is {:?} (oracle {})", a, b, cand, cols_str(&self.col))));
+                    }
+                    if *enc > room {
+                        fails.push(("load_fits".into(), format!("frame {}..{} needs {} bytes, {} left of {}", a, b, enc, room, max_size)));
+                    }
+                    room = room.saturating_sub(*enc);
+                    if a < b && b <= size {
+                        let s = &self.col[a as usize..b as usize];
+                        if !(s.iter().all(|c| *c == s[0]) && (s[0] == P || s[0] == L)) {
+                            fails.push(("pick_colour".into(), format!("frame {}..{} covers bytes {} (oracle {})", a, b, cols_str(s), cols_str(&self.col))));
+                        }
+                        if s[0] == L {
+                            self.retx_frames += 1;
+                            sink.branch("load:frame=retx");
+                        } else {
+                            sink.branch("load:frame=fresh");
+                        }
+                        for x in a..b {
+                            self.col[x as usize] = F;
+                        }
+                        self.frames.push((a, b));
+                        if self.frames.len() > 64 {
+                            self.frames.remove(0);
+                        }
+                    }
+                }
+                // the loop of try_load_data_into stops only when nothing sendable is left or the next
+                // frame (type + offset + 1 byte of length + >= 1 byte of data) does not fit
+                if let Some(c) = cand_of(&self.col) {
+                    if room >= varint_size(c) + 3 {
+                        fails.push(("load_stop_justified".into(), format!("stopped with {} bytes of room although offset {} is sendable (oracle {})", room, c, cols_str(&self.col))));
+                    }
+                }
+                if r.is_ok() != !frames.is_empty() {
+                    fails.push(("load_ok_iff_frames".into(), format!("returned {:?} with {} frames written", r, frames.len())));
+                }
+                if pkt.recorded != frames.len() {
+                    fails.push(("load_recorded".into(), format!("{} frames recorded, {} written", pkt.recorded, frames.len())));
+                }
+                if frames.len() >= 2 {
+                    self.multi_load = true;
+                }
+                sink.branch(&format!("load:frames={}", frames.len().min(4)));
+                let obs = format!(
+                    "frames={} ok={} sig={} dataok={} ",
+                    if list.is_empty() { "-".into() } else { list.join(",") },
+                    r.is_ok() as u8,
+                    r.err().unwrap_or(0),
+                    dataok as u8
+                );
+                self.finish(sink, &ops, &obs, fails)
+            }
+            SOp::Ack(a, b) | SOp::Lose(a, b) => {
+                let is_ack = matches!(op, SOp::Ack(..));
+                let name = if is_ack { "ack" } else { "lose" };
+                let ops = format!("{} {} {}", name, a, b);
+                let frame = CryptoFrame::new(VarInt::from_u64(a).unwrap(), VarInt::from_u64(b - a).unwrap());
+                sink.pending(&ops);
+                let r = if is_ack { catch(|| self.out.on_data_acked(&frame)) } else { catch(|| self.out.may_loss_data(&frame)) };
+                if let Err(msg) = r {
+                    return self.panic_line(sink, &ops, name, &msg);
+                }
+                let s = &self.col[a as usize..b as usize];
+                if is_ack && s.iter().any(|c| *c == L) {
+                    sink.branch("ack:after_loss");
+                }
+                if is_ack && s.iter().any(|c| *c == R) {
+                    sink.branch("ack:repeated");
+                }
+                if !is_ack && s.iter().any(|c| *c == R) {
+                    sink.branch("lose:after_ack");
+                }
+                if !is_ack && s.iter().any(|c| *c == L) {
+                    sink.branch("lose:repeated");
+                }
+                for x in a..b {
+                    let c = &mut self.col[x as usize];
+                    if is_ack {
+                        *c = R;
+                    } else if *c == F {
+                        *c = L;
+                    }
+                }
+                self.finish(sink, &ops, "", fails)
+            }
+        }
+    }
+}
+
+fn s_case(rng: &mut Rng, sink: &mut Sink) {
+    let mut ex = SEx::new(sink);
+    let nops = rng.range(5, 50);
+    for _ in 0..nops {
+        let r = if ex.written == 0 && rng.chance(3, 4) { 0 } else { rng.below(100) };
+        let op = match r {
+            0..=24 => SOp::Write(match rng.below(20) {
+                0 => 0,
+                1 => rng.range(25, 120),
+                _ => rng.range(1, 24),
+            }),
+            25..=64 => {
+                let max_size = match rng.below(10) {
+                    0 => rng.range(0, 2),
+                    1..=6 => rng.range(3, 40),
+                    7 | 8 => rng.range(41, 120),
+                    _ => rng.range(0, 120),
+                };
+                SOp::Load(max_size, rng.chance(1, 10))
+            }
+            _ if ex.frames.is_empty() => continue,
+            r => {
+                let (a, b) = *rng.pick(&ex.frames);
+                let (a, b) = if rng.chance(2, 3) {
+                    sink.branch("range:frame");
+                    (a, b)
+                } else {
+                    sink.branch("range:frame_sub");
+                    let x = rng.range(a, b - 1);
+                    (x, rng.range(x + 1, b))
+                };
+                if r < 83 { SOp::Ack(a, b) } else { SOp::Lose(a, b) }
+            }
+        };
+        if !ex.step(op, sink) {
+            break;
+        }
+    }
+    if ex.retx_frames > 0 && ex.multi_load {
+        sink.nontrivial();
+    }
+}
+
+pub fn run_crypto(o: &Opts) {
+    let mut sink = Sink::new_with_stats(&o.out, &o.stats);
+    for i in 0..o.cases {
+        if let Some(k) = o.only_case {
+            if k != i {
+                continue;
+            }
+        }
+        let mut rng = Rng::new(o.seed, i);
+        sink.case(&format!("{}", i));
+        s_case(&mut rng, &mut sink);
+    }
+    sink.finish(&o.stats, "random histories of poll_write / try_load_data_into(packet of max_size, force) / on_data_acked / may_loss_data on a real CryptoStream sender, CRYPTO frames parsed back from the packet bytes; non-trivial = at least one retransmitted (Lost) frame was loaded and at least one load wrote >= 2 frames; distinct by hash of the full transcript of the case");
+}
+
+pub const RUNS: &[(&str, fn(&Opts))] = &[("C09", run), ("C09x", run_exhaustive), ("C09s", run_crypto)];
